@@ -1,6 +1,7 @@
 CONSTANTS
   Fam = {"v4", "v6"}
   RouteIds = {1}
+  Comms = {FALSE}
   Reasons = {"io"}
   Dev = {}
 SPECIFICATION GenSpec
